@@ -221,7 +221,7 @@ ws_check_string(const void *v, size_t sz, nni_opt_type t)
 	if (t != NNI_TYPE_STRING) {
 		return (NNG_EBADTYPE);
 	}
-	if (nni_strnlen(v, sz) >= sz) {
+	if ((v == NULL) || (nni_strnlen(v, sz) >= sz)) {
 		return (NNG_EINVAL);
 	}
 	return (0);
